@@ -817,7 +817,7 @@ package jet
 //@   callsite (*sync.Pool).Put * requires [pool-invariant-at-put] {C10,C05,C07} p == gaddr(pool_State) && istype(x, "*Runtime") && PoolInv(as(x, "*Runtime"))
 //@   callsite (*Runtime).executeList 0 requires [extends-renders-root-ancestor] list == RootOf(caller.t).Root
 //@   callsite (*Runtime).executeList 0 requires [values-are-escaped-by-the-executed-templates-own-set] {C01} st.escapeeWriter.set == caller.t.set && st.escapeeWriter.Writer == caller.w
-//@   callsite (*Runtime).executeList 0 requires [execution-state-determined-by-inputs] {C10,C05,C07} st.scope.blocks == caller.t.processedBlocks && st.scope.variables == caller.variables && st.scope.parent == nil && st.escapeeWriter.set == caller.t.set && st.escapeeWriter.Writer == caller.w && st.content == nil && ite(caller.data != nil, st.context == RvOf(caller.data), !RvValid(st.context))
+//@   callsite (*Runtime).executeList 0 requires [execution-state-determined-by-inputs] {C10,C05,C07,C11} st.scope.blocks == caller.t.processedBlocks && st.scope.variables == caller.variables && st.scope.parent == nil && st.escapeeWriter.set == caller.t.set && st.escapeeWriter.Writer == caller.w && st.content == nil && ite(caller.data != nil, st.context == RvOf(caller.data), !RvValid(st.context))
 //@   callsite (*Runtime).executeList count 1
 
 // ---- exec / includeIfExists built-ins (default.go) ---------------------------------------------------------
